@@ -15,7 +15,7 @@ RULE = ('all well-formed signatures of <=3 (quick) / <=4 (thorough) parameters o
         'cases - the same inputs sent as JSON-RPC params to a generated method whose body returns its bound arguments, with the '
         'context parameter at each position and in each passing mode (by name, first positional, view constructor) x plain '
         'function / coroutine (async dispatcher) / class-based view method; a mapping naming the context parameter is included; the context object is drawn from truthy and falsy values ({}, 0, None, '', [], False). '
-        'distinct = distinct (signature, context mode, kind, params); non-trivial = the method body ran')
+        'twin cases: the SAME function registered twice (with and without a context designation), one registration served first, the other observed. distinct = distinct (signature, context mode, kind, params); non-trivial = the method body ran')
 EXHAUSTIVE = {'quick': True, 'thorough': True}
 TRUSTED_BASE = ['CPython 3.12 call binding and inspect.Signature.bind as transcribed in Model/Bind.v (py_call is validated '
                 'against the interpreter on every run by the python cases)']
@@ -96,6 +96,18 @@ def generate(seed, tier):
                 for is_async in ((False, True) if (cm[0] == 'none' or rnd.random() < 0.3) else (rnd.random() < 0.5,)):
                     cv = 0 if (cm[0] == 'none' or rnd.random() < 0.5) else rnd.randrange(1, len(CTXS))
                     cases.append({'t': 'disp', 'sig': sig, 'cm': cm, 'inp': inp, 'async': is_async, 'ctxv': cv})
+    # the same function object registered twice with different context designations, the other registration served
+    # first (binding must not depend on what the dispatcher served before)
+    for sig in signatures(2 if tier == 'quick' else 3):
+        if not sig or not all(k in ('PK', 'KO') for _, k, _ in sig):
+            continue
+        for cm in ctx_modes(sig):
+            if cm[0] not in ('name', 'pos'):
+                continue
+            for first in ('f', 'g'):
+                for inp in inputs(sig):
+                    cases.append({'t': 'disp', 'sig': sig, 'cm': cm, 'inp': inp, 'async': rnd.random() < 0.5, 'ctxv': 0,
+                                  'twin': first})
     return cases
 
 
@@ -119,6 +131,15 @@ def observe(case):
         except TypeError:
             return ('typeerror',)
     cfg = cfg_of(case)
+    if case.get('twin'):
+        # 'f' has the context designation, 'g' is the same function registered plainly; serve `first`, observe the other
+        first = case['twin']
+        other = 'g' if first == 'f' else 'f'
+        pre = [json.dumps({'jsonrpc': '2.0', 'id': 0, 'method': first, 'params': case['inp']})]
+        text = json.dumps({'jsonrpc': '2.0', 'id': 1, 'method': other, 'params': case['inp']})
+        out, events = dispenv.run(cfg, case['async'], text, CTXS[0], pre=pre)
+        events = [[e[0], other] + e[2:] if e[0] == 'call' else e for e in events]     # the body logs one fixed name
+        return {'load': ('ok', json.loads(text)), 'out': out, 'events': events}
     text = json.dumps({'jsonrpc': '2.0', 'id': 1, 'method': 'f', 'params': case['inp']})
     out, events = dispenv.run(cfg, case['async'], text, CTXS[case.get('ctxv', 0)])
     return {'load': ('ok', json.loads(text)), 'out': out, 'events': events}
@@ -126,7 +147,11 @@ def observe(case):
 
 def cfg_of(case):
     sig = [tuple(p) for p in case['sig']]
-    return {'methods': [{'name': 'f', 'sig': sig, 'ctx': tuple(case['cm']), 'body': ('env',)}], 'mws': [], 'ehs': [], 'max_batch': None}
+    ms = [{'name': 'f', 'sig': sig, 'ctx': tuple(case['cm']), 'body': ('env',)}]
+    if case.get('twin'):
+        ms[0]['share'] = 'F'
+        ms.append({'name': 'g', 'sig': sig, 'ctx': ('none',), 'body': ('env',), 'share': 'F'})
+    return {'methods': ms, 'mws': [], 'ehs': [], 'max_batch': None}
 
 
 def encode(case, obs):
